@@ -497,7 +497,7 @@ def shrink(case):
 
 
 MANIFEST = dict(
-    text=('Proof (Coq, 10 theorems, all closed under the global context): C07_roundtrip states for ALL boundaries, ALL field '
+    text=('Proof (Coq, 11 theorems, all closed under the global context): C07_roundtrip states for ALL boundaries, ALL field '
           'lists within the guards (names/file names free of double quotes and str.splitlines breaks, plain content types, no '
           'delimiter inside data, non-empty file names) and ALL in-memory thresholds the header blocks and text values fit in, '
           'that Request.POST on the body a browser sends succeeds and that POST/forms/files show exactly the submitted fields '
@@ -505,13 +505,15 @@ MANIFEST = dict(
           'content_type.value and file.read()); C07_no_cross_part_bytes: every section is the window of its own part, windows '
           'ordered and disjoint; C07_roundtrip_streaming: the same for the streaming parser under ANY chunking (via C06); '
           'C07_roundtrip_through_pipeline: the same through the whole pipeline model (CONTENT_TYPE regex, Content-Length '
-          'reading under any fragmentation and buffer size). Model coq/model/Fields.v is tied to /repo on every run by a '
+          'reading under any fragmentation and buffer size, any int() spelling of the length); '
+          'C07_roundtrip_through_pipeline_chunked: the same for EVERY legal chunked encoding of the body (any chunk partition, '
+          'hex spelling, extensions, trailer; composition of C05_exact, the reader refinement and C06). Model coq/model/Fields.v is tied to /repo on every run by a '
           'differential correspondence through Ombott.__call__ (both framings, thresholds below and above the body size) and '
           'an independent oracle compares the fields read back with the fields sent.'),
     note=('Trusted: Coq kernel + vm_compute; extraction (ExtrOcamlBasic only); the Python harness and its browser-side '
           'encoder; the hand-derived scanner for FieldStorage._patt (text pinned against Gen.v, derivation validated '
-          'exhaustively to length 8); splitlines/strip/UTF-8 re-implementations (tied by correspondence). Chunked framing '
-          'is covered by the correspondence only. F10 (empty file name delivered as form value None) is a recorded '
+          'exhaustively to length 8); splitlines/strip/UTF-8 re-implementations (tied by correspondence). Uploads are also read '
+          'block-wise and interleaved (several windows over one source, with Request.body in between). F10 (empty file name delivered as form value None) is a recorded '
           'finding; F8 and F9 were repaired.'),
     technique='Coq proof over an executable model + model/implementation correspondence + independent oracle',
     design_ref='DESIGN.md section 4, C07; Appendix A.3',
